@@ -1800,7 +1800,37 @@ func runCase(c *core.Ctx, i int, maxOps int) error {
 			h.doCompact(h.fams[rng.Intn(len(h.fams))])
 		case "edit":
 			name := h.fams[rng.Intn(len(h.fams))]
-			h.doEdit(name, genEdit(h, name, rng))
+			toks := genEdit(h, name, rng)
+			if rng.Intn(3) > 0 {
+				h.doEdit(name, toks)
+				break
+			}
+			// the commit as the atomic steps the code has (see sched.go): while the committer is parked at a point
+			// outside vs.mutex, complete flushes of random families (allocation + commit) run; no process death
+			// inside the window (the parked goroutine belongs to the live store)
+			var chunks []func()
+			for n := 1 + rng.Intn(2); n > 0; n-- {
+				fam := h.fams[rng.Intn(len(h.fams))]
+				kvs := h.randKVs(1 + rng.Intn(3))
+				var seqs [][2]int64
+				if rng.Intn(2) == 0 {
+					seqs = [][2]int64{{1, int64(rng.Intn(1000))}}
+				}
+				chunks = append(chunks, func() {
+					if _, busy := h.flushers[fam]; busy || h.failed || h.store == nil {
+						return
+					}
+					h.doFlushStart(fam, seqs, kvs)
+					if _, ok := h.flushers[fam]; ok && !h.failed && h.store != nil {
+						h.doFlushCommit(fam)
+					}
+				})
+			}
+			saved := h.scripted
+			h.scripted = true
+			h.doSplitEdit(name, toks, chunks)
+			h.scripted = saved
+			c.Branch("region:random-split-commit")
 		case "close":
 			h.doClose()
 		}
